@@ -31,7 +31,7 @@ type Amt struct {
 	E int64 `json:"e"`
 }
 
-func (a Amt) Sat() uint64 { return uint64(a.H)<<62 + uint64(a.U)*100000000 + uint64(a.E) }
+func (a Amt) Sat() uint64 { return uint64(a.H)*10000000000000000 + uint64(a.U)*100000000 + uint64(a.E) }
 
 type OutDef struct {
 	Amt  Amt `json:"amt"`
